@@ -146,6 +146,9 @@ func c16History(r *kit.Result, rng *kit.Rand, id string, nsteps int, prologue in
 	if rng.Chance(2, 5) {
 		w.addIntermediate(0, rng.Chance(2, 3))
 	}
+	if rng.Chance(1, 3) {
+		w.addSibling(rng.Intn(nroots))
+	}
 	w.check("setup")
 	switch prologue {
 	case 1:
